@@ -286,6 +286,11 @@ static const uint8_t mod16_base_index_table[] = { ASMJIT_LOOKUP_TABLE_64(VALUE, 
 // x86::Assembler - Helpers
 // ========================
 
+//! Tests whether the memory operand of the instruction must be encoded with a SIB byte (AMX tile memory, MPX 'mib').
+static ASMJIT_INLINE bool x86_requires_sib(const InstDB::CommonInfo* common_info, InstId inst_id) noexcept {
+  return common_info->is_tsib_op() || inst_id == Inst::kIdBndldx || inst_id == Inst::kIdBndstx;
+}
+
 static ASMJIT_INLINE bool is_jmp_or_call(InstId inst_id) noexcept {
   return inst_id == Inst::kIdJmp || inst_id == Inst::kIdCall;
 }
@@ -4089,6 +4094,10 @@ EmitX86M:
   // --------------
 
 EmitModSib:
+  // Instructions that require a SIB byte (AMX tile memory, MPX mib) have no rip-relative / label / 16-bit address form.
+  if (ASMJIT_UNLIKELY(x86_requires_sib(common_info, inst_id) && (rm_info & (kX86MemInfo_BaseLabel | kX86MemInfo_BaseRip | kX86MemInfo_67H_X86))))
+    goto InvalidAddress;
+
   if (!(rm_info & (kX86MemInfo_Index | kX86MemInfo_67H_X86))) {
     // ==========|> [BASE + DISP8|DISP32].
     if (rm_info & kX86MemInfo_BaseGp) {
@@ -4096,7 +4105,7 @@ EmitModSib:
       rel_offset = rm_rel->as<Mem>().offset_lo32();
 
       uint32_t mod = encode_mod(0, op_reg, rb_reg);
-      bool force_sib = common_info->is_tsib_op();
+      bool force_sib = x86_requires_sib(common_info, inst_id);
 
       if (rb_reg == Gp::kIdSp || force_sib) {
         // TSIB or [XSP|R12].
@@ -4146,12 +4155,25 @@ EmitModSib:
       Mem::AddrType addr_type = rm_rel->as<Mem>().addr_type();
       rel_offset = rm_rel->as<Mem>().offset_lo32();
 
+      // A mandatory SIB byte rules out the relative (rip + reloc) form; the absolute form below already uses SIB.
+      if (x86_requires_sib(common_info, inst_id)) {
+        if (ASMJIT_UNLIKELY(addr_type == Mem::AddrType::kRel))
+          goto InvalidAddress;
+        addr_type = Mem::AddrType::kAbs;
+      }
+
       if (is_32bit()) {
         // Explicit relative addressing doesn't work in 32-bit mode.
         if (ASMJIT_UNLIKELY(addr_type == Mem::AddrType::kRel))
           goto InvalidAddress;
 
-        writer.emit8(encode_mod(0, op_reg, 5));
+        if (x86_requires_sib(common_info, inst_id)) {
+          writer.emit8(encode_mod(0, op_reg, 4));
+          writer.emit8(encode_sib(0, 4, 5));
+        }
+        else {
+          writer.emit8(encode_mod(0, op_reg, 5));
+        }
         writer.emit32u_le(uint32_t(rel_offset));
       }
       else {
